@@ -2,6 +2,7 @@ import CookModel.Lemmas.Lexer
 import CookModel.Lemmas.Text
 import CookModel.Lemmas.LexLaws
 import CookModel.Lemmas.Spans
+import CookModel.Lemmas.SpansDoc
 /-
   C04  Every reported source location is in bounds, on char boundaries, faithful.
 
@@ -175,5 +176,76 @@ example : ¬ Boundary 0 ['é', 'x'] 1 := by
     omega
 example : SpanOK 0 ['é', 'x'] ⟨2, 3⟩ :=
   ⟨⟨['é'], ['x'], rfl, by decide⟩, ⟨['é', 'x'], [], rfl, by decide⟩, by decide⟩
+
+/-! ### spans of events and diagnostics (`EvSpansOK`, `TopInv` in Lemmas/SpansEv.lean) -/
+
+/-- **One block.**  Let `blk` be a block: a non-empty run of adjacent tokens that is a piece of the
+    text `w` laid out from `off` (`WFI`; every block the splitter cuts from the token stream is
+    one), and let position 0 be a boundary of the text (i.e. `off = 0`: the text is the whole
+    document; needed only for the recovered timer quantity whose spans are the documented `(0, 0)`).
+    Then every event `parse_block` pushes — text, ingredient, cookware, timer, metadata, section,
+    and every error and warning — has all its spans `SpanOK off w`: the component span, the
+    modifiers span, the intermediate-reference span, the quantity, value and scaling-lock spans,
+    the spans of name/alias/note/unit/key/value texts and of each of their fragments (whose
+    contents are the source slices at their offsets), and EVERY label of every diagnostic
+    (`EvSpansOK`); and the content events are in source order without overlapping, all ending at or
+    before the end of the block.  The proof goes through every parser of the block parser
+    (`parseQuantity`, `parseRegularQuantity`, `parseAdvancedQuantity`, `compBody*`, `noteP`,
+    `parseInterRef`, `parseModifiers`, `parseAlias`, `ingredientP`, `cookwareP`, `timerP` with
+    `checkNoteTimer`, `stepOne`, `parseStep`, `parseTextBlock`, `sectionP`, `metadataEntry`,
+    `parseBlock`): lemmas `…_ev` of Lemmas/SpansEv.lean. -/
+theorem C04_block_event_spans_ok {α : Type} [Arith α] (cs : CharSpec) (ext : Ext) (oldStyle : Bool)
+    (off : Nat) (w : List Char) (blk : List Tok) (hw : WFI off w blk) (hz : Boundary off w 0) :
+    (∀ ev ∈ (runBlock (α := α) cs ext oldStyle blk #[] none).1.toList, EvSpansOK off w ev) ∧
+    SrcOrdered (runBlock (α := α) cs ext oldStyle blk #[] none).1.toList ∧
+    (∀ ev ∈ (runBlock (α := α) cs ext oldStyle blk #[] none).1.toList, ∀ sp, ev.srcSpan = some sp →
+      sp.stop ≤ offAt blk blk.length) := by
+  have h := runBlock_ev (α := α) cs ext oldStyle blk #[] hw hz (topInv_empty (baseOff blk)) (Nat.le_refl _)
+  exact ⟨h.ok, h.ord, h.bound⟩
+
+/-- the block hypothesis is satisfiable: `@é` at offset 3 of the text `ab @é` -/
+example : WFI 0 "ab @é".toList [⟨.at, ['@'], 3⟩, ⟨.word, ['é'], 4⟩] :=
+  ⟨by simp, ⟨⟨⟨rfl, by decide, trivial⟩, by intro t ht hk; simp at ht; rcases ht with rfl | rfl <;> simp at hk⟩,
+    ⟨"ab ".toList, [], by decide, by decide⟩⟩⟩
+
+/-- **The whole document, every source location** (partial: the front-matter offsets are assumed,
+    `FrontMatterOffsetsOK`: when the input has front matter, the cooklang part is a suffix of the
+    input whose offset is the byte length of what precedes it, and the YAML text is the input
+    slice at its offset; nothing is assumed for an input without front matter).  Every event and
+    diagnostic `PullParser` produces for the input `s` has all its spans inside `s`, on character
+    boundaries of `s`, with `start ≤ end`, and every text fragment equals the input slice at its
+    span. -/
+theorem C04_event_spans_ok_partial {α : Type} [Arith α] (cs : CharSpec) (ext : Ext) (s : List Char)
+    (hfm : FrontMatterOffsetsOK cs s) :
+    ∀ ev ∈ (pullEvents (α := α) cs ext s).1.toList, EvSpansOK 0 s ev := by
+  obtain ⟨b, h⟩ := pullEvents_topInv (α := α) cs ext s hfm
+  exact h.ok
+
+/-- … without any assumption when the input has no front matter -/
+theorem C04_event_spans_ok_no_frontmatter {α : Type} [Arith α] (cs : CharSpec) (ext : Ext) (s : List Char)
+    (hno : parseFrontmatter cs s = none) :
+    ∀ ev ∈ (pullEvents (α := α) cs ext s).1.toList, EvSpansOK 0 s ev :=
+  C04_event_spans_ok_partial cs ext s (frontMatterOffsetsOK_of_none cs s hno)
+
+/-- **Source order** (partial: same assumption on the front-matter offsets): the content events of
+    a document (text, ingredient, cookware, timer, metadata entry, section) have spans that are
+    pairwise ordered — each starts at or after the end of every earlier one.  Inside a step this is
+    the monotonicity of the cursor, across blocks the order of the blocks in the token stream. -/
+theorem C04_events_in_source_order_partial {α : Type} [Arith α] (cs : CharSpec) (ext : Ext) (s : List Char)
+    (hfm : FrontMatterOffsetsOK cs s) : SrcOrdered (pullEvents (α := α) cs ext s).1.toList := by
+  obtain ⟨b, h⟩ := pullEvents_topInv (α := α) cs ext s hfm
+  exact h.ord
+
+theorem C04_events_in_source_order_no_frontmatter {α : Type} [Arith α] (cs : CharSpec) (ext : Ext)
+    (s : List Char) (hno : parseFrontmatter cs s = none) :
+    SrcOrdered (pullEvents (α := α) cs ext s).1.toList :=
+  C04_events_in_source_order_partial cs ext s (frontMatterOffsetsOK_of_none cs s hno)
+
+/-- `SrcOrdered` is not vacuous: two texts in the wrong order are rejected -/
+example : ¬ SrcOrdered [Ev.text (α := Rat) ⟨[⟨['a'], 5, false⟩], 5, false⟩,
+    Ev.text ⟨[⟨['b'], 0, false⟩], 0, false⟩] := by
+  intro h
+  have := (List.pairwise_cons.mp h).1 (Ev.text ⟨[⟨['b'], 0, false⟩], 0, false⟩) (by simp) _ _ rfl rfl
+  revert this; decide
 
 end Cook
